@@ -8,7 +8,7 @@ use serde_json::json;
 use std::collections::{BTreeMap, BTreeSet};
 use std::path::PathBuf;
 
-fn registry_src(repo: &std::path::Path, name: &str) -> Option<PathBuf> {
+pub fn registry_src(repo: &std::path::Path, name: &str) -> Option<PathBuf> {
     // version pinned by /repo/Cargo.lock, source in the cargo registry
     let lock = std::fs::read_to_string(repo.join("Cargo.lock")).ok()?;
     let mut version = None;
@@ -557,6 +557,9 @@ C01.defined: wherever constraints_and_type_name renders a component with the `<P
     instance_of(m, ctx, "C01.instanceof");
     collisions(m, ctx, "C01.collide");
     list_values(m, ctx, "C01.listvalue");
+    // "the generated text parses as Rust items": a component, alternative or enumeral spelled like a keyword is emitted behind an
+    // escape only if the generators' keyword table lists it (the table's containment in the compiler's own list is C16.kw)
+    keyword_table(m, ctx);
     // an hstring under an OCTET STRING reached through a type reference stays a list of bits: E0277 in the bindings (= C07.hex)
     crate::rules::c07::octets_through_reference(m, ctx, "C01.hex");
     crate::rules::c07::guard_contradictions(m, ctx, "C01.guard");
@@ -622,7 +625,8 @@ pub fn empty_set(m: &Model, ctx: &mut Ctx, rule: &str, derive: &std::path::Path)
         ("name", Val::Str("a".into())), ("tag", Val::none()), ("ty", Val::Ctor("Boolean".into(), vec![Val::Opaque("b".into())], BTreeMap::new())),
         ("optionality", Val::ctor("Required")), ("is_recursive", Val::Bool(false)), ("constraints", Val::List(vec![])),
     ]);
-    for (kind, n_members, extensible) in [("Set", 0usize, false), ("Set", 0, true), ("Set", 1, false), ("Sequence", 0, false), ("Sequence", 1, false)] {
+    // (a SET whose marker comes first, `SET { ..., a T }`, has components — all of them additions)
+    for (kind, n_members, extensible) in [("Set", 0usize, false), ("Set", 0, true), ("Set", 1, false), ("Set", 1, true), ("Set", 2, true), ("Sequence", 0, false), ("Sequence", 1, false), ("Sequence", 1, true)] {
         let key = format!("{}:{}-components{}", kind, n_members, if extensible { ":extensible" } else { "" });
         ctx.oblige(rule, &key, true);
         let seq = named("SequenceOrSet", vec![
@@ -1193,4 +1197,32 @@ pub fn defined(m: &Model, ctx: &mut Ctx, rule: &str) {
         }
     }
     ctx.floor(&format!("{}/shapes", rule), n, 100);
+}
+
+
+/// C01.kw: the string array the manglers consult (the one containing `fn` and `struct`) lists every strict and reserved keyword of
+/// ref/rust_keywords.json.
+fn keyword_table(m: &Model, ctx: &mut Ctx) {
+    let rule = "C01.kw";
+    let reference: serde_json::Value = match std::fs::read_to_string(ctx.verif.join("ref/rust_keywords.json")).ok().and_then(|s| serde_json::from_str(&s).ok()) {
+        Some(v) => v,
+        None => { ctx.fail_closed(rule, "ref/rust_keywords.json missing"); return; }
+    };
+    let table = m.consts.iter().filter_map(|c| str_array(&c.expr).map(|v| (c, v))).find(|(_, v)| v.iter().any(|s| s == "fn") && v.iter().any(|s| s == "struct"));
+    let Some((tc, table)) = table else {
+        ctx.fail_closed(rule, "keyword table (string array containing \"fn\" and \"struct\") not found");
+        return;
+    };
+    let mut n = 0;
+    for class in ["strict", "reserved"] {
+        for k in reference[class].as_array().cloned().unwrap_or_default().iter().filter_map(|v| v.as_str().map(|s| s.to_string())) {
+            n += 1;
+            ctx.oblige(rule, &k, true);
+            if !table.contains(&k) {
+                ctx.violate(rule, &format!("missing-keyword:{}", k), &tc.file, tc.line,
+                    &format!("`{}` is a {} Rust keyword but is not in {}: a component, alternative or enumeral named `{}` is emitted unescaped (`pub {}: u8`) and the generated text does not parse as Rust items", k, class, tc.name, k, k));
+            }
+        }
+    }
+    ctx.floor("C01.kw/keywords", n, 50);
 }
